@@ -55,17 +55,22 @@ def job_score(job):
     if kind == 'lines':
         f = prog.resolve('line')
         data = qr[0]
+        # the run-length term is an equivalence of two different recurrences over the whole line: decided by the solver in
+        # seconds up to 29 modules (V3), 40 s at 33, not within 300 s at 41 -> run term only for V1-V3, window term always
+        runs_too = n <= 29
         for r in range(n):
             out = I.call_fn(f, [SliceRef(data, r * n, n)])
             p, q = iso.penalty_line_t(V[r], labs[r])
             items.append(('row %d: 1011101 windows' % r, T.eq(32, out[0], p)))
-            items.append(('row %d: runs of >= 5' % r, T.eq(32, out[1], q)))
+            if runs_too:
+                items.append(('row %d: runs of >= 5' % r, T.eq(32, out[1], q)))
         for c in range(n):
             col = I.mk([data[r * n + c] for r in range(n)])
             out = I.call_fn(f, [SliceRef(col, 0, n)])
             p, q = iso.penalty_line_t([V[r][c] for r in range(n)], [labs[r][c] for r in range(n)])
             items.append(('column %d: 1011101 windows' % c, T.eq(32, out[0], p)))
-            items.append(('column %d: runs of >= 5' % c, T.eq(32, out[1], q)))
+            if runs_too:
+                items.append(('column %d: runs of >= 5' % c, T.eq(32, out[1], q)))
     elif kind == 'squares':
         out = I.call_fn(prog.resolve('matrix_score_squares'), [Ptr(cell, 0)])
         conds = iso.squares_conds(V, labs)
@@ -324,7 +329,8 @@ def main(argv):
     chk.cov['selection_versions'] = [v + 1 for v in sel_vs]
     chk.bounds += ['scoring functions (line per row and per column, matrix_score_squares, dark_module_score, score total on V1): versions %s, every module value symbolic, labels of the real blank symbol' % [v + 1 for v in score_vs],
                    'selection loop with score uninterpreted: versions %s, stream/level/mask option/scores symbolic' % [v + 1 for v in sel_vs]]
-    chk.outside += ['scoring functions on versions > 6 (the row/column routine has no version-dependent code; longer lines are outside the claim)',
+    chk.outside += ['the run-length term of score::line on lines longer than 29 modules (versions > 3): the equivalence query is beyond the solver (40 s at 33 modules, > 300 s at 41); the routine has no length-dependent code, but that is an argument, not a verdict',
+                    'scoring functions on versions > 6',
                     'the un-stubbed end-to-end argmin (real scores of all eight candidates in one query) is beyond the solver; it is the conjunction of the two parts above']
     chk.assumptions += ['documented penalty = the property statement: 40 per 1011101 window and N-2 per run of N>=5 equal modules inside the encoding region along rows and columns of the candidate, 3 per 2x2 block, 10 per 5% step from 50% (floor of the percentage)',
                         'candidate = placed codewords masked with pattern i, format area still blank (as ranked by the crate)']
